@@ -21,12 +21,12 @@ import (
 
 // UStep is one scheduler decision of the uci-world.
 type UStep struct {
-	Op     string `json:"op"`                // in | eof | grant | run | tick | drain
+	Op     string `json:"op"`                // in | eof | grant | run | tick | drain | auto | probe
 	Data   string `json:"data,omitempty"`    // in: bytes the GUI writes (whole lines, fragments, or several lines)
 	Polls  int    `json:"polls,omitempty"`   // run: abort polls granted to the parked search
 	CostUS int64  `json:"cost_us,omitempty"` // run: simulated time charged before the polls execute
 	DUS    int64  `json:"d_us,omitempty"`    // tick: simulated time that passes
-	N      int    `json:"n,omitempty"`       // grant: number of pending writes to let through (default 1)
+	N      int    `json:"n,omitempty"`       // grant: number of pending writes to let through (default 1); auto: 1 the GUI reads every line at once, 0 it stops reading
 	Fail   bool   `json:"fail,omitempty"`    // grant: the first of them fails with a write error instead (fault)
 }
 
@@ -49,6 +49,7 @@ type StubGo struct {
 	Move      string   `json:"move"`                  // what it returns
 	Ponder    string   `json:"ponder,omitempty"`      //
 	SelfEndUS int64    `json:"self_end_us,omitempty"` // >0: returns by itself after this much simulated time
+	UnwindUS  int64    `json:"unwind_us,omitempty"`   // >0: simulated time it takes to return once it has seen the stop
 }
 
 // Event is one entry of the recorded history.
@@ -331,6 +332,11 @@ func (ws *wrapSearch) Go(b *board.Board, opts ...search.Option) (score chess.Sco
 				call.TStop = w.now()
 				call.Aborted = true
 				w.evAsync("STUBSTOP", "", 0, nil)
+				if sg.UnwindUS > 0 {
+					// a real search needs a while to unwind: whatever the GUI sends
+					// meanwhile finds the driver between "stop seen" and "bestmove"
+					time.Sleep(time.Duration(sg.UnwindUS)*time.Microsecond + 667)
+				}
 			default:
 				w.evAsync("STUBSELF", "", 0, nil)
 			}
@@ -506,6 +512,24 @@ func (w *uciWorld) inspect() {
 	}
 }
 
+// goReceived reports (1/0) whether the driver is inside its go handler: it
+// has taken a go line in and has not yet answered it.
+func (w *uciWorld) goReceived() int64 {
+	buf := make([]byte, 1<<18)
+	n := runtime.Stack(buf, true)
+	for n == len(buf) {
+		buf = make([]byte, 2*len(buf))
+		n = runtime.Stack(buf, true)
+	}
+	for _, g := range strings.Split(string(buf[:n]), "\n\n") {
+		head, _, _ := strings.Cut(g, "\n")
+		if strings.Contains(head, "synctest bubble") && strings.Contains(g, ".handleGo") {
+			return 1
+		}
+	}
+	return 0
+}
+
 // realSearchUnparked: the real search is active but not parked at a poll
 // (it is blocked writing to the output channel); once writes are granted it
 // may run on and even finish without passing through the scheduler.
@@ -670,31 +694,38 @@ func (w *uciWorld) apply(st UStep) bool {
 		}
 	case "drain":
 		w.drain(false)
+	case "auto":
+		// the GUI stops / resumes reading what the engine writes
+		w.autoGrant = st.N != 0
+		w.ev("AUTO", "", int64(st.N))
+		w.settle()
+	case "probe":
+		w.ev("PROBE", "", w.goReceived())
 	default:
 		return false
 	}
 	return true
 }
 
-// owed reports whether a bestmove is outstanding from the GUI's view: a go
-// line was written and no bestmove line has been granted since.
+// owed reports whether a bestmove is outstanding from the GUI's view: more go
+// lines were written than bestmove lines have been granted.
 func (w *uciWorld) owed() bool {
-	owed := false
+	owed := 0
 	for _, e := range w.out.Events {
 		switch e.Kind {
 		case "IN":
 			if firstToken(e.Data) == "go" {
-				owed = true
+				owed++
 			}
 		case "OUT":
 			for _, l := range strings.Split(e.Data, "\n") {
-				if firstToken(l) == "bestmove" {
-					owed = false
+				if firstToken(l) == "bestmove" && owed > 0 {
+					owed--
 				}
 			}
 		}
 	}
-	return owed
+	return owed > 0
 }
 
 func firstToken(s string) string {
